@@ -19,10 +19,16 @@ def pre (p r : String) : Bool := r.toList.take p.length == p.toList
 def isCrash (r : String) : Bool := pre "crash" r
 def isTimeout (r : String) : Bool := r == "timeout"
 
+/-- the bison parser stack is bounded (YYMAXDEPTH): beyond a few thousand nested constructs the compiler answers with
+    the located syntax error "memory exhausted" — a script error, not a crash; such texts say nothing about evaluation. -/
+def isParserCapacity (r : String) : Bool :=
+  pre "syntax@" r && r.toList.reverse.take 32 == "6d656d6f727920657868617573746564".toList.reverse
+
 /-- a generated (syntactically valid) program: first violated clause, if any. -/
 def checkProgram (o : Obs) : Option String :=
   if isCrash o.min || isCrash o.full || isCrash o.again then some "no_crash"
   else if isTimeout o.min || isTimeout o.full || isTimeout o.again then none      -- `while` may diverge
+  else if isParserCapacity o.min || isParserCapacity o.full then none
   else if o.min != o.again then some "deterministic"
   else if o.min != o.full then some "precedence_as_declared"
   else if pre "syntax" o.min then some "generated_program_parses"
